@@ -26,6 +26,7 @@ import subprocess
 ROOT = os.path.dirname(os.path.dirname(os.path.abspath(__file__)))
 COQ = os.path.join(ROOT, "coq")
 _CACHE = {}
+STATS = {}
 
 FIELD_TABLE = {
     "txn": "txn", "gtxn": "txn", "gtxns": "txn", "itxn": "txn", "itxn_field": "txn", "gitxn": "txn",
@@ -50,8 +51,9 @@ def tables():
         if line.startswith("= \""):
             line = line[3:]
         parts = line.rstrip('"').split("|")
-        if parts[0] == "op" and len(parts) == 5:
+        if parts[0] == "op" and len(parts) == 7:
             ops.setdefault(parts[1], (int(parts[2]), parts[3], [int(x) for x in parts[4].split(",")]))
+            _CACHE.setdefault("arity", {}).setdefault(parts[1], (parts[5], parts[6]))
         elif parts[0] == "curve" and len(parts) == 5:
             curves[(parts[1], parts[2])] = (int(parts[3]), int(parts[4]))
         elif parts[0] == "field" and len(parts) == 4:
@@ -192,4 +194,63 @@ def check(text, impl):
         shown = impl.get("costs", {}).get(str(b["idx"]))
         if shown is not None and int(shown) != sum(cs):
             out.append(f"block {b['idx']} ({'; '.join(b['ins'])[:120]}): displayed cost {shown}, sum of AVM opcode costs at version {v} is {sum(cs)}")
+    return out
+
+
+# ----------------------------------------------------------------------------- C11: operands by the AVM arities
+def _arity(code, imms):
+    """value of an arity code of Spec/AvmTables.v for the immediates of a line (None = not defined)"""
+    try:
+        if code[0] == "K":
+            return int(code[1:])
+        if code[0] == "N":
+            return int(imms[0], 0) + int(code[1:]) if imms else None
+        if code[0] == "L":
+            return len(imms) + int(code[1:])
+        if code[0] == "O":
+            a, b = code[1:].split(":")
+            return int(b) if imms else int(a)
+    except (ValueError, IndexError):
+        return None
+    return None
+
+
+def check_operands(text, impl_ast):
+    """Independent reading of C11 on straight-line blocks: simulate the symbolic stack with the AVM's own arities
+    (Spec/AvmTables.v, window convention for the deep-stack opcodes) -- every instruction pops its k topmost cells, which
+    are either 'pushed by instruction at line l as its j-th output' or unknown (from before the block), and pushes m cells --
+    and compare, operand by operand, with the producers the implementation reconstructed (`ast` request: for each
+    instruction line the list of [producer line, output index, ...] or "U").  Blocks are taken from the implementation's
+    answer (its keys are block ids; the instruction lines of a block are the keys inside).  A block is skipped from the
+    first instruction on that is not in the AVM table or whose arity is undefined for its immediates; frame_bury is the
+    known finding D9.  Returns a list of violation strings."""
+    tables()
+    ar = _CACHE["arity"]
+    src = {n: (mn, imms) for n, mn, imms in source_instructions(text)}
+    out = []
+    for bid, rows in impl_ast.items():
+        if not isinstance(rows, dict) or "err" in rows:
+            continue
+        stack = []
+        for ln in sorted(int(k) for k in rows):
+            if ln not in src:
+                break
+            mn, imms = src[ln]
+            if mn == "#pragma":
+                continue
+            if mn not in ar or mn == "frame_bury":
+                break
+            pops, pushes = _arity(ar[mn][0], imms), _arity(ar[mn][1], imms)
+            if pops is None or pushes is None:
+                break
+            known = stack[len(stack) - pops:] if pops <= len(stack) else stack[:]
+            want = ["U"] * (pops - len(known)) + [[l, j] for l, j in known]
+            got = [a if a == "U" else a[:2] for a in rows[str(ln)]]
+            if got != want:
+                shown = (mn + " " + " ".join(imms)).strip()
+                out.append(f"block {bid}, line {ln} `{shown}`: the AVM passes operands {want} (producer line, output index; U = from before the block) but the tool reconstructs {got}")
+                break
+            del stack[len(stack) - len(known):]
+            stack += [(ln, j) for j in range(pushes)]
+            STATS["operand_rows_compared"] = STATS.get("operand_rows_compared", 0) + 1
     return out
